@@ -448,3 +448,133 @@ N.append({'id': 'cxx-compose-node-built-in-place', 'file': 'src/treespec/treespe
 # inlines a name that is bound once and read once in the next statement (as the whole return value
 # or a direct argument of its call) - `py_frontend.inline_explaining_variables`.
 N.append({'id': 'py-explaining-variables', 'generator': 'py-temps', 'file': None, 'edits': []})
+
+# compound guards written as separate tests: `if (A || B) return X;` -> `if (A) return X; if (B)
+# return X;`, `if (A && B) S` -> `if (A) { if (B) S }`, in C++ (8 + 21 guards) and Python (3 + 14).
+# The first run raised alarms in K7, P1, P2cxx, G4, DC3 and an analysis error in T1 (too few atoms):
+# every extractor that read a guard from one IfStmt.  Both front ends now show a chain of plain
+# ifs as one compound test (cxx_frontend.merge_split_guards, py_frontend.merge_split_guards); the
+# rules were not touched.  The rewritten tree passes the test suite (94003 passed).
+N.append({'id': 'guards-split-into-separate-tests', 'generator': 'split-conditions', 'file': None, 'edits': []})
+
+# helper extraction: the iterator's Custom arm calls a file-local helper that runs the flatten
+# function, validates the result and hands back (children, node_data) as a pair (seed h03 did this
+# as part of a larger change; this is the behaviour-preserving half).
+N.append({'id': 'cxx-custom-flatten-helper-extracted', 'file': 'src/treespec/traversal.cpp', 'edits': [(
+    """namespace optree {
+
+template <bool NoneIsLeaf>
+// NOLINTNEXTLINE[readability-function-cognitive-complexity]
+py::object PyTreeIter::NextImpl() {""",
+    """namespace optree {
+
+static std::pair<py::tuple, py::object> FlattenCustomNode(
+    const py::handle &handle,
+    const PyTreeTypeRegistry::RegistrationPtr &custom) {
+    const py::tuple out =
+        EVALUATE_WITH_LOCK_HELD2(thread_safe_cast<py::tuple>(custom->flatten_func(handle)),
+                                 handle,
+                                 custom->flatten_func);
+    const ssize_t num_out = TupleGetSize(out);
+    if (num_out != 2 && num_out != 3) [[unlikely]] {
+        std::ostringstream oss{};
+        oss << "PyTree custom flatten function for type " << PyRepr(custom->type)
+            << " should return a 2- or 3-tuple, got " << num_out << ".";
+        throw std::runtime_error(oss.str());
+    }
+    auto children = thread_safe_cast<py::tuple>(TupleGetItem(out, 0));
+    const ssize_t arity = TupleGetSize(children);
+    if (num_out == 3) [[likely]] {
+        const py::object node_entries = TupleGetItem(out, 2);
+        if (!node_entries.is_none()) [[likely]] {
+            const ssize_t num_entries = TupleGetSize(thread_safe_cast<py::tuple>(node_entries));
+            if (num_entries != arity) [[unlikely]] {
+                std::ostringstream oss{};
+                oss << "PyTree custom flatten function for type " << PyRepr(custom->type)
+                    << " returned inconsistent number of children (" << arity
+                    << ") and number of entries (" << num_entries << ").";
+                throw std::runtime_error(oss.str());
+            }
+        }
+    }
+    return {std::move(children), TupleGetItem(out, 1)};
+}
+
+template <bool NoneIsLeaf>
+// NOLINTNEXTLINE[readability-function-cognitive-complexity]
+py::object PyTreeIter::NextImpl() {"""), (
+    """                const py::tuple out = EVALUATE_WITH_LOCK_HELD2(
+                    thread_safe_cast<py::tuple>(custom->flatten_func(object)),
+                    object,
+                    custom->flatten_func);
+                const ssize_t num_out = TupleGetSize(out);
+                if (num_out != 2 && num_out != 3) [[unlikely]] {
+                    std::ostringstream oss{};
+                    oss << "PyTree custom flatten function for type " << PyRepr(custom->type)
+                        << " should return a 2- or 3-tuple, got " << num_out << ".";
+                    throw std::runtime_error(oss.str());
+                }
+                auto children = thread_safe_cast<py::tuple>(TupleGetItem(out, 0));
+                const ssize_t arity = TupleGetSize(children);
+                if (num_out == 3) [[likely]] {
+                    const py::object node_entries = TupleGetItem(out, 2);
+                    if (!node_entries.is_none()) [[likely]] {
+                        const ssize_t num_entries =
+                            TupleGetSize(thread_safe_cast<py::tuple>(node_entries));
+                        if (num_entries != arity) [[unlikely]] {
+                            std::ostringstream oss{};
+                            oss << "PyTree custom flatten function for type "
+                                << PyRepr(custom->type)
+                                << " returned inconsistent number of children (" << arity
+                                << ") and number of entries (" << num_entries << ").";
+                            throw std::runtime_error(oss.str());
+                        }
+                    }
+                }
+                for (ssize_t i = arity - 1; i >= 0; --i) {""",
+    """                const py::tuple children = FlattenCustomNode(object, custom).first;
+                const ssize_t arity = TupleGetSize(children);
+                for (ssize_t i = arity - 1; i >= 0; --i) {""")]})
+
+# unpickling: the deque arm spells the None case out (seed h04 did this and read the other
+# outcome from the wrong position; this is the behaviour-preserving half).  S1's "payload only from
+# the state" first reported the `= py::none()` assignment.
+N.append({'id': 'cxx-unpickle-deque-none-spelt-out', 'file': 'src/treespec/serialization.cpp', 'edits': [(
+    """            case PyTreeKind::DefaultDict:
+            case PyTreeKind::Deque:
+            case PyTreeKind::Custom: {
+                node.node_data = t[2];
+                break;
+            }""",
+    """            case PyTreeKind::Deque: {
+                if (t[2].is_none()) [[likely]] {
+                    node.node_data = py::none();
+                } else [[unlikely]] {
+                    node.node_data = t[2];
+                }
+                break;
+            }
+
+            case PyTreeKind::DefaultDict:
+            case PyTreeKind::Custom: {
+                node.node_data = t[2];
+                break;
+            }""")]})
+
+# the named-tuple class cache is filled through try_emplace and the iterator it hands back is
+# dereferenced (always valid); another `it` of the same function comes from find() - I5 first
+# matched the two by name (seed h09 contained this shape)
+N.append({'id': 'cxx-type-cache-filled-through-try-emplace', 'file': 'include/optree/pytypes.h', 'edits': [(
+    """    const bool result = EVALUATE_WITH_LOCK_HELD(IsNamedTupleClassImpl(type), type);
+    {
+        const scoped_write_lock_guard lock{mutex};
+        if (cache.size() < MAX_TYPE_CACHE_SIZE) [[likely]] {
+            cache.emplace(type, result);""",
+    """    const bool result = EVALUATE_WITH_LOCK_HELD(IsNamedTupleClassImpl(type), type);
+    {
+        const scoped_write_lock_guard lock{mutex};
+        if (cache.size() < MAX_TYPE_CACHE_SIZE) [[likely]] {
+            const auto [it, inserted] = cache.try_emplace(type, result);
+            if (!inserted) [[unlikely]] {
+                return it->second;
+            }""")]})
